@@ -63,7 +63,8 @@ def validate(items: list, scratch: Path, *, heap: str = '3g', timeout: float = 3
     cf = scratch / f'icfgs_{id(items)}.json'
     tf = scratch / f'itraces_{id(items)}.ndjson'
     projected = [project(it['raw']) for it in items]
-    tlc.dump_json(cf, [it['cfg'] for it in items])
+    # dependencies in the order the task's parameters mention them (LabRun plans in that order)
+    tlc.dump_json(cf, [dict(it['cfg'], deps=it['dep_order']) if it.get('dep_order') else it['cfg'] for it in items])
     tlc.dump_ndjson(tf, [{'tid': it['tid'], 'ev': ev} for it, ev in zip(items, projected)])
     r = tlc.run_tlc('LabRunTrace', 'LabRunTrace.cfg', scratch=scratch, workers=1, heap=heap,
                     env={'LV_CFGS': str(cf), 'LV_ITRACES': str(tf)}, timeout=timeout, tag='conf')
